@@ -43,6 +43,9 @@ def gen_inorder(hist, rng, count=None):
     caps = hist.captures
     n = len(hist.wire)
     c0 = 0 if rng.random() < 0.5 else rng.randrange(len(caps))
+    live = [j for j, c in enumerate(caps) if c.live_wires]
+    if live and rng.random() < 0.5:
+        c0 = rng.choice(live)     # load answered by the real handler while a transaction commits
     ev = []
 
     def load(ci):
@@ -51,11 +54,13 @@ def gen_inorder(hist, rng, count=None):
         hi = cap.wire_len
         # in-flight notifications: older ones (already contained) plus the next ones, in emission order
         lo = max(0, cap.wire_len - rng.choice([0, 0, 2]))
+        if cap.live_wires:
+            k = max(k, len(cap.live_wires))     # committed while the request was answered: these are in flight
         while hi < n and hi - cap.wire_len < k and hist.reports[hi].vg[1:] == cap.snap.vg[1:]:
             hi += 1
         if rng.random() < 0.25 and hi < n and hist.reports[hi].vg[1:] == cap.snap.vg[1:]:
             # the next report arrives in a thread that is stopped at the buffer lock of the pre-check (forced schedule)
-            ev.append(('race', ci, ci, list(range(lo, hi)), hi, rng.choice(['before-lock', 'in-lock'])))
+            ev.append(('race', ci, ci, list(range(lo, hi)), hi, rng.choice(['before-lock', 'in-lock', 'after-release'])))
             return hi + 1, cap.snap.vg[1:]
         ev.append(('reload', ci, ci, list(range(lo, hi))))
         return hi, cap.snap.vg[1:]
@@ -73,6 +78,9 @@ def gen_inorder(hist, rng, count=None):
     if count:
         count('schedule-style:inorder')
     return ev
+
+
+translate = c06.translate
 
 
 KW = dict(sched_gen='props.c01:gen_inorder', describe=True, notif_oracle=True, mirror_oracle=True)
